@@ -350,7 +350,7 @@ def concrete_playback(slot, prop, h, logdir, failed_checks=()):
                     cmd += ["--features", ",".join(feats)]
                 if profile == "release":
                     cmd += ["--release"]
-                cmd += ["--", name]
+                cmd += ["--", name, "--nocapture"]  # a panic followed by an abort must still show its message
                 e = env_for(os.path.join(CACHE, "playback-target"))
                 p = subprocess.run(cmd, cwd=slot.scratch, env=e, stdout=subprocess.PIPE,
                                    stderr=subprocess.STDOUT, timeout=3600)
